@@ -762,12 +762,20 @@ func ruleHasMoreMeansNext(c *Ctx, rule string) {
 func packageHelpersOf(fn *ssa.Function, pkg string) []*ssa.Function {
 	seen := map[*ssa.Function]bool{fn: true}
 	var out []*ssa.Function
-	allCalls(fn, func(ci ssa.CallInstruction) {
-		if g := staticCallee(ci); g != nil && len(g.Blocks) > 0 && fnPkgPath(origin(g)) == pkg && !seen[g] {
-			seen[g] = true
-			out = append(out, g)
+	work := []*ssa.Function{fn}
+	for depth := 0; depth < 3 && len(work) > 0; depth++ {
+		var next []*ssa.Function
+		for _, f := range work {
+			allCalls(f, func(ci ssa.CallInstruction) {
+				if g := staticCallee(ci); g != nil && len(g.Blocks) > 0 && fnPkgPath(origin(g)) == pkg && !seen[g] {
+					seen[g] = true
+					out = append(out, g)
+					next = append(next, g)
+				}
+			})
 		}
-	})
+		work = next
+	}
 	return out
 }
 
